@@ -34,16 +34,23 @@ def brute_lower(P):
 
 
 @core.safe_case
-def chain(ctx, pts, family):
+def chain(ctx, pts, family, int_dtype=None):
     import kneeliverse.convex_hull as ch
     n = len(pts)
     d = ctx.get_driver()
-    case = dict(points=pts.tolist())
+    a_ = np.asarray(pts, float)
+    # int64 delivery where every orientation product of two coordinate differences stays below 2^62 (the package's integer cross product is then exact)
+    isint = bool(int_dtype) if int_dtype is not None else bool(a_.size and np.all(a_ == np.floor(a_)) and float(np.ptp(a_[:, 0])) * float(np.ptp(a_[:, 1])) < 2.0 ** 61
+                                                              and float(np.max(np.abs(a_))) < 2.0 ** 52 and ctx.rng.random() < 0.35)
+    pin = a_.astype(np.int64) if isint else pts
+    if isint:
+        ctx.tag('input:int64-dtype')
+    case = dict(points=pts.tolist(), int_dtype=isint)
     Pq = [(F(float(a)), F(float(b))) for a, b in pts]
     for which, fn, sign in (('lower', ch.graham_scan_lower, 1), ('upper', ch.graham_scan_upper, -1)):
         site = f'convex_hull.graham_scan_{which}'
         try:
-            H = [int(v) for v in np.asarray(fn(pts)).tolist()]
+            H = [int(v) for v in np.asarray(fn(pin)).tolist()]
         except Exception as e:
             ctx.fail('predicate', 'completes', site, case, repr(e)[:200])
             continue
@@ -89,14 +96,21 @@ def hull_spec(P):
 
 
 @core.safe_case
-def graham(ctx, pts, family):
+def graham(ctx, pts, family, int_dtype=None):
     import kneeliverse.convex_hull as ch
     n = len(pts)
     d = ctx.get_driver()
-    case = dict(points=pts.tolist())
+    a_ = np.asarray(pts, float)
+    # int64 delivery where every orientation product of two coordinate differences stays below 2^62 (the package's integer cross product is then exact)
+    isint = bool(int_dtype) if int_dtype is not None else bool(a_.size and np.all(a_ == np.floor(a_)) and float(np.ptp(a_[:, 0])) * float(np.ptp(a_[:, 1])) < 2.0 ** 61
+                                                              and float(np.max(np.abs(a_))) < 2.0 ** 52 and ctx.rng.random() < 0.35)
+    pin = a_.astype(np.int64) if isint else pts
+    if isint:
+        ctx.tag('input:int64-dtype')
+    case = dict(points=pts.tolist(), int_dtype=isint)
     site = 'convex_hull.graham_scan'
     try:
-        H = [int(v) for v in np.asarray(ch.graham_scan(pts)).tolist()]
+        H = [int(v) for v in np.asarray(ch.graham_scan(pin)).tolist()]
     except Exception as e:
         ctx.fail('predicate', 'completes', site, case, repr(e)[:200])
         ctx.count(family, n=n)
@@ -215,7 +229,7 @@ def run(ctx):
 def replay(ctx, body):
     c = body['case']
     pts = np.array(c['points'], float)
-    if 'graham' in body.get('site', ''):
-        graham(ctx, pts, 'replay')
+    if body.get('site', '').endswith('graham_scan'):
+        graham(ctx, pts, 'replay', bool(c.get('int_dtype', False)))
     else:
-        chain(ctx, pts, 'replay')
+        chain(ctx, pts, 'replay', bool(c.get('int_dtype', False)))
